@@ -16,7 +16,9 @@ READER = {'_two_files': 'a reader pass opens only files that are readable at tha
           '_bounds_scan': 'bounds skip files that vanished or cannot be read yet, never raise',
           '_read_lengths': 'per-file block extraction depends only on that file (index + length)'}
 LISTING = {'_listing_fwd_rf_gone1': 'listing tolerates a subdirectory vanishing between the scan and the listing',
-           '_listing_rev_rf_gone2': 'reverse listing (used for the upper bound) tolerates a vanishing subdirectory'}
+           '_listing_rev_rf_gone2': 'reverse listing (used for the upper bound) tolerates a vanishing subdirectory',
+           '_listing_fwd_rf_none_stray': "the listing the reader's bounds and file scans are built on never yields the tmp. file a concurrent writer has open",
+           '_listing_rev_rf_none_stray': "reverse listing (upper bound): never yields the tmp. file a concurrent writer has open"}
 
 
 def main(tier):
@@ -26,7 +28,7 @@ def main(tier):
                'reduction: with (i)-(iii) every interleaving of reader queries with writer operations observes a prefix-closed, growing set of complete files')
     rep.outside_claim('free-running two-process schedules are not explored; the claim is the reduction argument plus its solver-decided premises')
     if not wcommon.gate(rep, st): return rep.finish()
-    specs = [s for s in wcommon.valid_specs(tier) if ('2 calls' in s['name'] or '3 calls' in s['name'] or 'then 1 block' in s['name']) and 'regular' not in s['name']] + wcommon.session_specs(tier)[:1]
+    specs = [s for s in wcommon.valid_specs(tier) if ('2 calls' in s['name'] or '3 calls' in s['name'] or 'then 1 block' in s['name']) and 'regular' not in s['name']] + wcommon.session_specs(tier)[:2]
     t0 = time.time()
     results = wrun.run_all(specs)
     keep = C02.KEEP + ('a data file is created only if its final name does not exist', 'a tmp file is renamed only onto', 'the existing finalized file is neither')
@@ -34,7 +36,14 @@ def main(tier):
     rep.ob('(i) publication protocol on every prefix of %d write-path configurations' % len(specs), 'witness', None, tot['q'], tot['s'], tot['paths'])
     T = 150 if tier == 'quick' else 900
     chx.report(rep, chx.run_module('reader', names=list(READER), per_condition_timeout=T), {k: '(ii) ' + v for k, v in READER.items()})
-    chx.report(rep, chx.run_module('listing', names=list(LISTING), per_condition_timeout=420 if tier == 'quick' else 1800), {k: '(ii) ' + v for k, v in LISTING.items()})
+    from checks import C14
+    lrep = {}
+    for nm_ in LISTING:
+        parts = nm_.split('_')      # _listing_<dir>_rf_<none|goneN>[_stray]
+        g_ = -1 if parts[4] == 'none' else int(parts[4][4:])
+        lrep[nm_] = (lambda g2, r2, st2: (lambda kw: C14.REPLAY_LISTING % (dict(kw, kind=0, gone=g2, stray=st2), r2)))(g_, parts[2] == 'rev', nm_.endswith('_stray'))
+    chx.report(rep, chx.run_module('listing', names=list(LISTING), per_condition_timeout=900 if tier == 'quick' else 2400), {k: '(ii) ' + v for k, v in LISTING.items()},
+               replays=lrep, sigs={k: 'C09.listing.' + k.strip('_') for k in LISTING})
     C02.grammar_p5(rep, st)
     rep.extra['explanation'] = 'reduction of schedule quantification to per-file protocol + per-file reader independence; see module docstring'
     return rep.finish()
